@@ -486,13 +486,17 @@ func splitProps(r *RNG, href string, props []*wEl) *wEl {
 	ok := func(l []*wEl) *wEl {
 		return E("DAV:", "propstat", E("DAV:", "prop", l...), E("DAV:", "status").T("HTTP/1.1 200 OK"))
 	}
-	resp.Add(ok(a))
+	// RFC 4918 does not order the propstat elements: the failing one may come first, between or last
+	stats := []*wEl{ok(a)}
 	if len(b) > 0 {
-		resp.Add(ok(b))
+		stats = append(stats, ok(b))
 	}
-	if r.Chance(50) {
-		resp.Add(E("DAV:", "propstat", E("DAV:", "prop", E("DAV:", "quota-used-bytes"), E("urn:x", "nope")), E("DAV:", "status").T("HTTP/1.1 404 Not Found")))
+	if r.Chance(60) {
+		nf := E("DAV:", "propstat", E("DAV:", "prop", E("DAV:", "quota-used-bytes"), E("urn:x", "nope")), E("DAV:", "status").T("HTTP/1.1 404 Not Found"))
+		at := r.Intn(len(stats) + 1)
+		stats = append(stats[:at:at], append([]*wEl{nf}, stats[at:]...)...)
 	}
+	resp.Add(stats...)
 	return resp
 }
 
